@@ -91,12 +91,12 @@ def calc_post_processing_linear_SINRs(
 
     # This matrix will always be square
     channel_eq = np.dot(G_H, channel.dot(W))
-    sum_all_antennas = np.sum(channel_eq, axis=1)
     s = np.diag(channel_eq)
-    i = sum_all_antennas - s
 
     S = np.abs(s)**2
-    I = np.abs(i)**2
+    # The streams are independent: the interference power is the sum of
+    # the powers of the off-diagonal elements (not the power of their sum)
+    I = np.sum(np.abs(channel_eq)**2, axis=1) - S
 
     if isinstance(G_H, np.ndarray):
         # G_H is a numpy array. Lets calculate the norm considering the
